@@ -81,6 +81,39 @@ Confirm(p, pt) == /\ pend[p] # <<>> /\ Head(pend[p]) = pt
                   /\ pend' = [pend EXCEPT ![p] = Tail(@)] /\ Adv /\ UNCHANGED vars
 Skip == Adv /\ UNCHANGED <<vars, pend>>
 
+(* ---------------------------------------------------------------- look-ahead *)
+(* The OUTCOME of a check under span.mu is logged only later: by the process' own next line (which verif point  *)
+(* an End call passes next, what IsRecording returned) or by the snapshot a processor is handed (which calls'   *)
+(* tokens it holds).  A silent check step is therefore taken only in a state in which its outcome is the one   *)
+(* the rest of the same trace shows; this is implied by the Confirm / LRet / DataOK conditions further down    *)
+(* the trace and only spares TLC the exploration of guesses that are bound to fail there.                       *)
+(* Ahead = FALSE switches the look-ahead off: the driver re-runs a scenario that drifted that way (bounded), so   *)
+(* that the reported line is the one whose own conditions fail, not the check whose outcome it contradicts.     *)
+Ahead == @AHEAD@
+RECURSIVE NextHookOf(_, _), NextRetOf(_, _), NextSnap(_)
+NextHookOf(p, i) == IF i > Len(Trace) \/ Trace[i].ev \in {"EndScenario", "Cfg"} THEN "none"
+                    ELSE IF Trace[i].ev = "Hook" /\ Trace[i].span = 1 /\ Trace[i].pid = p THEN Trace[i].point
+                    ELSE NextHookOf(p, i + 1)
+NextRetOf(p, i) == IF i > Len(Trace) \/ Trace[i].ev \in {"EndScenario", "Cfg"} THEN 0
+                   ELSE IF Trace[i].ev = "Ret" /\ Trace[i].proc # "fin" /\ Trace[i].op \in {"IsRec", "ETime"} /\ Trace[i].pid = p THEN i
+                   ELSE NextRetOf(p, i + 1)
+NextSnap(i) == IF i > Len(Trace) \/ Trace[i].ev \in {"EndScenario", "Cfg"} THEN 0
+               ELSE IF Trace[i].ev = "OnEnd" /\ Trace[i].span = 1 THEN i
+               ELSE NextSnap(i + 1)
+(* End: the not-recording path is the one whose next point is span.end.ignored *)
+ECheckAhead(e) == (Ahead /\ Hooks /\ e # StartEnder) => ((endTime # "none") = (NextHookOf(e, l) = "span.end.ignored"))
+(* IsRecording / EndTime(): what the call returns is what it read *)
+RReadAhead(r) == LET i == NextRetOf(r, l) IN
+                 (Ahead /\ i > 0) => ((endTime = "none") = (IF Trace[i].op = "IsRec" THEN Trace[i].val ELSE Trace[i].arg = 0))
+(* mutators: a call that finds the span recording is in every snapshot taken afterwards (default limits), a call *)
+(* whose event is in a snapshot found the span recording (small limits: an event may have been evicted again)   *)
+MCheckAhead(m) == LET i == NextSnap(l) IN
+                  (Ahead /\ i > 0 /\ ~C0.zero /\ ~(m \in UserMut /\ MShape = "norecheck")) =>
+                     IF C0.lim = 0 THEN (endTime = "none") = (m \in SetOf(Trace[i].fullp))
+                     ELSE (m \in EvMut /\ m \in SetOf(Trace[i].fullp)) => endTime = "none"
+(* the child count does not change once the span is marked ended: the count at the mark is the snapshot's *)
+EMarkAhead == LET i == NextSnap(l) IN (Ahead /\ i > 0) => childCount = Trace[i].child
+
 (* ---------------------------------------------------------------- exact lines *)
 Mine == E.proc # "fin"          \* the final re-reads (after every call has returned) are the contract's business
 LCall == /\ E.ev = "Call" /\ Mine
@@ -144,7 +177,7 @@ LSkip == /\ \/ E.ev \in {"Reread", "ICfg"}
 LEnd == /\ E.ev = "EndScenario"
         \* every call of the real run returned: so it has in the model, and nobody owes a line
         /\ E.quiescent => \A x \in Procs : pc[x] \in {"idle", "done"} /\ pend[x] = <<>>
-        /\ PrintT("IMPLEND " \o ToJson([sc |-> E.sc, bad |-> mon.bad, line |-> l]))
+        /\ PrintT("IMPLEND " \o ToJson([sc |-> E.sc, bad |-> mon.bad, line |-> l, states |-> TLCGet("distinct")]))
         /\ Skip
 LCfg == /\ E.ev = "Cfg"
         /\ mu' = I0.mu /\ endTime' = I0.endTime /\ parts' = I0.parts /\ childCount' = I0.childCount
@@ -153,18 +186,22 @@ LCfg == /\ E.ev = "Cfg"
         /\ pend' = NoPend /\ Adv
 
 (* ---------------------------------------------------------------- silent steps *)
-SEnd(e) == \/ (ELock(e) \/ ECheck(e)) /\ Sil(e, <<>>)
+SEnd(e) == \/ ELock(e) /\ Sil(e, <<>>)
+           \/ ECheck(e) /\ ECheckAhead(e) /\ Sil(e, <<>>)
            \/ (EPanicUnlock(e) \/ EPanicRelock(e) \/ EPanicRecheck(e) \/ EPanicAddEvent(e)) /\ Sil(e, <<>>)
            \* the return after a lost re-check (recheck shapes) has no point of its own
            \/ EUnlockIgnored(e) /\ Sil(e, IF pc[e] = "unlockign" THEN Owe(e, "span.end.ignored") ELSE <<>>)
            \/ EUnlockForTask(e) /\ Sil(e, Owe(e, "span.end.checked"))
            \/ ETaskEnd(e) /\ Sil(e, Owe(e, "span.end.taskended"))
-           \/ (ERelock(e) \/ ERecheck(e) \/ EMark(e)) /\ Sil(e, <<>>)
+           \/ (ERelock(e) \/ ERecheck(e)) /\ Sil(e, <<>>)
+           \/ EMark(e) /\ EMarkAhead /\ Sil(e, <<>>)
            \/ EUnlock(e) /\ Sil(e, Owe(e, "span.end.marked"))
            \/ (EGetProcs(e) \/ ESnapLock(e) \/ ESnapCopy(e) \/ ESnapUnlock(e)) /\ Sil(e, <<>>)
-SMut(m) == (MPreCheck(m) \/ MLock(m) \/ MCheck(m) \/ MApply(m) \/ MApplyEv(m) \/ MUnlock(m)) /\ Sil(m, <<>>)
+SMut(m) == \/ (MPreCheck(m) \/ MLock(m) \/ MApply(m) \/ MApplyEv(m) \/ MUnlock(m)) /\ Sil(m, <<>>)
+           \/ MCheck(m) /\ MCheckAhead(m) /\ Sil(m, <<>>)
 SChild(c) == (CLock(c) \/ CIncr(c) \/ CUnlock(c)) /\ Sil(c, <<>>)
-SRead(r) == (RLock(r) \/ RRead(r) \/ RUnlock(r)) /\ Sil(r, <<>>)
+SRead(r) == \/ (RLock(r) \/ RUnlock(r)) /\ Sil(r, <<>>)
+            \/ RRead(r) /\ RReadAhead(r) /\ Sil(r, <<>>)
 SReg(g) == (GLock(g) \/ GCheck(g) \/ GStore(g) \/ GUnlock(g)) /\ Sil(g, <<>>)
 (* the harness' gate sits in the Shutdown of processor p1: a provider without it runs no user code there *)
 NoP1 == Len(Processors) = 0 \/ Processors[1] \notin SeqSet(plist)
